@@ -352,6 +352,17 @@ func genConfig(r *sim.Rand) caseCfg {
 		}
 		cc.Remedies = append(cc.Remedies, rc)
 	}
+	if len(cc.Remedies) >= 2 && cc.Remedies[0].Grouped && cc.Remedies[1].Grouped && r.Chance(1, 2) {
+		// two remedies whose <name, header> pairs read alike once joined with the engine's own delimiters:
+		// "rem" + "x_group" and "rem_x" + "group". They are different remedies with counters of their own.
+		cc.Remedies[0].Name, cc.Remedies[0].Header = "rem", "x_group"
+		cc.Remedies[1].Name, cc.Remedies[1].Header = "rem_x", "group"
+		// make them count the same group values
+		cc.Remedies[1].Groups = nil
+		for _, g := range cc.Remedies[0].Groups {
+			cc.Remedies[1].Groups = append(cc.Remedies[1].Groups, groupCfg{Value: g.Value, PctMilli: genPct(r)})
+		}
+	}
 	cc.GridExact = r.Chance(1, 4)
 	cc.Change = r.Chance(1, 5)
 	return cc
